@@ -500,7 +500,7 @@ def shrink_spec(kind, spec, fails):
     """greedy: replace sub-values by smaller ones / drop keys while it still fails"""
     cur = copy.deepcopy(spec)
     changed = True
-    budget = 150
+    budget = 60
     while changed and budget > 0:
         changed = False
         for p, v in list(paths(cur)):
@@ -555,13 +555,16 @@ def run_specs(ck: Check, drv: LeanDriver, n: int, r):
             def fails(c, kind=kind, via=via):
                 v = independent_verdicts([[kind, c]])[0]
                 return spec_oracle(v, impl_prepare(kind, c, via_cache=via)) is not None
-            try:
-                small = shrink_spec(kind, spec, fails) if isinstance(spec, (dict, list)) else spec
-            except common.Infra:
-                small = spec
-            v2 = independent_verdicts([[kind, small]])[0]
+            small, what = spec, bad
+            if len(ck.violations) < 3 and isinstance(spec, (dict, list)):   # each probe costs a side process
+                try:
+                    small = shrink_spec(kind, spec, fails)
+                    v2 = independent_verdicts([[kind, small]])[0]
+                    what = spec_oracle(v2, impl_prepare(kind, small, via_cache=via)) or bad
+                except common.Infra:
+                    small = spec
             ck.violate({"kind": "spec", "resource": kind, "spec": small, "via_cache": via, "mutation": tag},
-                       f"{kind}: " + (spec_oracle(v2, impl_prepare(kind, small, via_cache=via)) or bad))
+                       f"{kind}: {what}")
         if verdict[0] is not None and res["r"] != "raised":
             reqs.append({"op": "gate", "valid": bool(verdict[0]),
                          "body": res["r"] if res["r"] in ("prepared", "permFail", "retry") else "prepared",
